@@ -256,6 +256,40 @@ def run(chk):
             detail = "code: %s ; d forward/dx: %s" % (e, df)
     chk.ob("C10-D2.algebra", TSG + "::getHierarchicalSupport", "support scales by d forward/dx of the [-1,1] family", oks, sup.where, detail)
 
+    # ------------------------------------------------------------------ D4 application of the chain rule
+    chk.rule("C10-D4.chain", "where the diagonal Jacobian of the transform is applied, entry [row * num_dimensions + j] is multiplied by the factor of dimension j: "
+                             "the minor index of the row-major entry is the index of the factor, the stride is the extent of that index, and the same entry is read and written")
+    from tsg.sym import index_form
+    nch = 0
+    for f in db.all_functions([CPP]):
+        if f.cls != TSG or f.name.rsplit("::", 1)[-1] not in ("differentiate", "getDifferentiationWeights"):
+            continue
+        for n in walk(f.body):
+            compound = n.get("k") == "CompoundAssignOperator" and n.get("op") == "*="
+            plain = n.get("k") == "BinaryOperator" and n.get("op") == "="
+            if compound or plain:
+                rhs = strip(n["c"][1])
+                if "jacobian_g_diag[" in txt(rhs) and (compound or (rhs.get("k") == "BinaryOperator" and rhs.get("op") == "*")):
+                    nch += 1
+                    chk.saw(f)
+                    lhs = strip(n["c"][0])
+                    fac = [q for q in walk(rhs) if q.get("k") in ("CXXOperatorCallExpr",) and q.get("op") == "[]" and txt(strip(q["c"][1])) == "jacobian_g_diag"]
+                    J = txt(strip(fac[0]["c"][2])) if fac else None
+                    li = lhs["c"][1] if lhs.get("k") == "ArraySubscriptExpr" else None
+                    form = index_form(li) if li is not None else None
+                    # extent of J: the bound of the for loop declaring it
+                    bound = None
+                    for a in f.ancestors(n):
+                        if a.get("k") == "ForStmt" and a.get("init") is not None and any(d.get("k") == "VarDecl" and d.get("name") == J for d in walk(a["init"])):
+                            cd = strip(a.get("cond"))
+                            bound = txt(strip(cd["c"][1])) if cd is not None and cd.get("k") == "BinaryOperator" else None
+                    other = [q for q in walk(rhs) if q.get("k") == "ArraySubscriptExpr"]
+                    same = compound or (bool(other) and txt(other[0]) == txt(lhs))
+                    ok = form is not None and form[2] == J and bound is not None and bound in (form[0], form[1]) and same
+                    chk.ob("C10-D4.chain", f.name + f.sig, "entry %s scaled by jacobian_g_diag[%s]" % (txt(lhs), J), ok, f.loc(n),
+                           "index form (major, stride, minor) = %s, factor index %s runs to %s, same entry read and written: %s" % (form, J, bound, same))
+    chk.floor("C10-D4.chain", nch, 2, "sites applying the transform Jacobian")
+
     # ------------------------------------------------------------------ D3
     lo = {"rule_gausslaguerre+rule_gausslaguerreodd": 0, "rule_fourier": 0, "else": -1}
     hi = {"rule_fourier": 1, "else": 1}
